@@ -356,7 +356,26 @@ func Build(seed uint64, flags int) *Result {
 		b.put("word/footer1.xml", `<?xml version="1.0" encoding="UTF-8"?><w:ftr xmlns:w="`+nsW+`"><w:p><w:r><w:t>foreign footer</w:t></w:r></w:p></w:ftr>`)
 		b.ovr["/word/header1.xml"] = "application/vnd.openxmlformats-officedocument.wordprocessingml.header+xml"
 		b.ovr["/word/footer1.xml"] = "application/vnd.openxmlformats-officedocument.wordprocessingml.footer+xml"
-		sect += fmt.Sprintf("<%s %s=\"default\" r:id=\"%s\"/><%s %s=\"default\" r:id=\"%s\"/>", b.w("headerReference"), b.wa("type"), hid, b.w("footerReference"), b.wa("type"), fid)
+		// which kind header1.xml / footer1.xml serve, and whether further kinds exist: producers number these parts in the order
+		// they were created, not by kind (own stream, so that everything drawn above stays as it was)
+		hk := sim.NewRand(seed ^ 0x68656164)
+		kinds := [][]string{{"default"}, {"default"}, {"first", "default"}, {"even", "default", "first"}, {"first"}, {"default", "even"}}
+		hks, fks := kinds[hk.Intn(len(kinds))], kinds[hk.Intn(len(kinds))]
+		sect += fmt.Sprintf("<%s %s=\"%s\" r:id=\"%s\"/><%s %s=\"%s\" r:id=\"%s\"/>", b.w("headerReference"), b.wa("type"), hks[0], hid, b.w("footerReference"), b.wa("type"), fks[0], fid)
+		for i, k := range hks[1:] {
+			n := fmt.Sprintf("header%d.xml", i+2)
+			id := b.addRel(nsR+"/header", n, "")
+			b.put("word/"+n, `<?xml version="1.0" encoding="UTF-8"?><w:hdr xmlns:w="`+nsW+`"><w:p><w:r><w:t>foreign `+k+` header</w:t></w:r></w:p></w:hdr>`)
+			b.ovr["/word/"+n] = "application/vnd.openxmlformats-officedocument.wordprocessingml.header+xml"
+			sect += fmt.Sprintf("<%s %s=\"%s\" r:id=\"%s\"/>", b.w("headerReference"), b.wa("type"), k, id)
+		}
+		for i, k := range fks[1:] {
+			n := fmt.Sprintf("footer%d.xml", i+2)
+			id := b.addRel(nsR+"/footer", n, "")
+			b.put("word/"+n, `<?xml version="1.0" encoding="UTF-8"?><w:ftr xmlns:w="`+nsW+`"><w:p><w:r><w:t>foreign `+k+` footer</w:t></w:r></w:p></w:ftr>`)
+			b.ovr["/word/"+n] = "application/vnd.openxmlformats-officedocument.wordprocessingml.footer+xml"
+			sect += fmt.Sprintf("<%s %s=\"%s\" r:id=\"%s\"/>", b.w("footerReference"), b.wa("type"), k, id)
+		}
 	}
 	if flags&FSectPr != 0 || sect != "" {
 		sect += fmt.Sprintf("<%s %s=\"11906\" %s=\"16838\"/><%s %s=\"1440\" %s=\"1800\" %s=\"1440\" %s=\"1800\" %s=\"851\" %s=\"992\" %s=\"0\"/>", b.w("pgSz"), b.wa("w"), b.wa("h"), b.w("pgMar"), b.wa("top"), b.wa("right"), b.wa("bottom"), b.wa("left"), b.wa("header"), b.wa("footer"), b.wa("gutter"))
